@@ -267,7 +267,7 @@ for k, v in opts.items():
     ann = Config.model_fields[k].annotation
     kw[renames.get(k, k)] = TypeAdapter(ann, config={"arbitrary_types_allowed": True}).validate_python(v)
 try:
-    generate(Path("s.json"), input_file_type=InputFileType.JsonSchema, output=Path("out.py"), disable_timestamp=True, **kw)
+    generate(Path("s.json"), **{"input_file_type": InputFileType.JsonSchema, "output": Path("out.py"), "disable_timestamp": True, **kw})
 except Exception as e:
     print(f"{type(e).__name__}: {e}", file=sys.stderr)
     sys.exit(1)
